@@ -586,6 +586,7 @@ func RunConnected(nick, user string, evs []Ev, opt ConnOptions) (obs, oracle str
 			}
 		}
 		if ss.PanicCount() > 0 {
+			healthy = false // the handler may have died with the state lock held: do not wait for Stop
 			return "PANIC", fmt.Sprintf("panic: handler panicked around event %d (%s %q)", i, e.Cmd, e.Params)
 		}
 		if mayDisconnect(e, opt) {
@@ -600,6 +601,7 @@ func RunConnected(nick, user string, evs []Ev, opt ConnOptions) (obs, oracle str
 	// two barriers: an ERROR queued by a handler is behind at most the first one
 	alive := !gone && !wedged && !stalled && barrier() && barrier()
 	if ss.PanicCount() > 0 {
+		healthy = false
 		return "PANIC", "panic: a handler panicked during the history"
 	}
 	if wedged {
